@@ -6,6 +6,7 @@ import (
 	"go/token"
 	"go/types"
 	"strings"
+	"sync"
 
 	"golang.org/x/tools/go/ssa"
 )
@@ -345,7 +346,7 @@ func isExitCall(in ssa.Instruction) bool {
 	if o == nil {
 		return false
 	}
-	if exitHelpers[o.Origin()] {
+	if isExitHelper(o) {
 		return true
 	}
 	return isFunc(o, "os", "", "Exit") || (objPkgPath(o) == "log" && (o.Name() == "Fatal" || o.Name() == "Fatalf" || o.Name() == "Fatalln"))
@@ -353,10 +354,21 @@ func isExitCall(in ssa.Instruction) bool {
 
 // exitHelpers: private helpers of cli.Run that never return — every path prints one of their parameters to os.Stderr
 // and then calls os.Exit with a non-zero constant (verified by computeExitHelpers at load time).
-var exitHelpers = map[*types.Func]bool{}
+var (
+	exitHelpersMu sync.RWMutex
+	exitHelpers   = map[*types.Func]bool{} // entries of every loaded program (function objects are distinct per program)
+)
+
+func isExitHelper(o *types.Func) bool {
+	if o == nil {
+		return false
+	}
+	exitHelpersMu.RLock()
+	defer exitHelpersMu.RUnlock()
+	return exitHelpers[o.Origin()]
+}
 
 func computeExitHelpers(p *Prog) {
-	exitHelpers = map[*types.Func]bool{}
 	anchor := p.Func("cli.Run")
 	if anchor == nil {
 		return
@@ -408,7 +420,9 @@ func computeExitHelpers(p *Prog) {
 		if existsPath(sf.Blocks[0], 0, exitOK, printOK) != nil {
 			continue
 		}
+		exitHelpersMu.Lock()
 		exitHelpers[rf.Obj.Origin()] = true
+		exitHelpersMu.Unlock()
 	}
 }
 
